@@ -278,7 +278,10 @@ func genStep(rt *rapid.T, p *Profile, cfg *Config, i int) Step { //nolint:cyclop
 		st.N = genLen(rt, p, "n")
 		st.Seed = rapid.Uint64Range(0, 1<<20).Draw(rt, "seed")
 		st.Content = rapid.SampledFrom([]string{"", "", "", "zero", "stun", "chandata", "x4000"}).Draw(rt, "content")
+		// (PeerData + RespLost: the server's write of the relayed datagram to the client fails)
+		st.RespLost = rapid.IntRange(0, 9).Draw(rt, "relayWriteFails") == 0
 		if cfg.StreamWindow > 0 && cfg.isStream(st.C) && rapid.IntRange(0, 2).Draw(rt, "stall") == 0 {
+			st.RespLost = false
 			// the client stops reading in the middle of a frame while more datagrams arrive
 			st.Stall = rapid.SampledFrom([]int{1, 4, 6, 6, 10, 31}).Draw(rt, "stallS")
 			st.Burst = rapid.IntRange(2, 4).Draw(rt, "burst")
